@@ -1,0 +1,136 @@
+//go:build verif
+
+/*
+ * Atree - Scalable Arrays and Ordered Maps
+ *
+ * Copyright Flow Foundation
+ *
+ * Licensed under the Apache License, Version 2.0 (the "License");
+ * you may not use this file except in compliance with the License.
+ * You may obtain a copy of the License at
+ *
+ *   http://www.apache.org/licenses/LICENSE-2.0
+ *
+ * Unless required by applicable law or agreed to in writing, software
+ * distributed under the License is distributed on an "AS IS" BASIS,
+ * WITHOUT WARRANTIES OR CONDITIONS OF ANY KIND, either express or implied.
+ * See the License for the specific language governing permissions and
+ * limitations under the License.
+ */
+
+package atree
+
+import "fmt"
+
+// Verification hooks for iteration (C13). This file only exists for the compiler when the build
+// tag "verif" is set. It adds a read-only walk of a map's slab tree that reports, for every
+// entry in iteration order, which slabs have to be in memory to reach it; it does not change
+// any existing declaration.
+
+// VerifMapIterEntry is one key/value pair of a map as the slab tree holds it.
+type VerifMapIterEntry struct {
+	Key   Storable
+	Value Storable
+	// Path lists the slabs below the root that lie between the root and the entry: index slabs,
+	// the level-0 data slab (unless it is the root) and the external collision group slab, if any.
+	Path []SlabID
+	// Slab is the ordinal (left to right) of the level-0 data slab holding the entry.
+	Slab int
+	// Pos is the ordinal of the level-0 element (single element or collision group) in that slab.
+	Pos int
+	// Group: 0 = level-0 single element, 1 = inside an inline collision group,
+	// 2 = inside an external collision group.
+	Group int
+	// Depth is the digest level of the innermost elements value holding the entry.
+	Depth int
+	// List reports that the innermost elements value is a singleElements list (all digests equal).
+	List bool
+}
+
+// VerifMapIterDump walks the map from its root through the index slabs (using the children
+// headers, as the loaded-value iterator does) and returns every entry in that order, the number
+// of slab levels (1 = root is a data slab) and the identifiers of all level-0 data slabs.
+func VerifMapIterDump(m *OrderedMap) (entries []VerifMapIterEntry, height int, dataSlabs []SlabID, err error) {
+	var elems func(e elements, path []SlabID, slab, pos, group, depth int) error
+	elems = func(e elements, path []SlabID, slab, pos, group, depth int) error {
+		if depth > 16 {
+			return fmt.Errorf("verif: element groups nested deeper than 16")
+		}
+		switch x := e.(type) {
+		case *hkeyElements:
+			for i, el := range x.elems {
+				p := pos
+				if depth == 0 {
+					p = i
+				}
+				switch y := el.(type) {
+				case *singleElement:
+					entries = append(entries, VerifMapIterEntry{Key: y.key, Value: y.value, Path: path,
+						Slab: slab, Pos: p, Group: group, Depth: depth})
+				case *inlineCollisionGroup:
+					g := group
+					if g == 0 {
+						g = 1
+					}
+					if err := elems(y.elements, path, slab, p, g, depth+1); err != nil {
+						return err
+					}
+				case *externalCollisionGroup:
+					s, err := getMapSlab(m.Storage, y.slabID)
+					if err != nil {
+						return err
+					}
+					ds, ok := s.(*MapDataSlab)
+					if !ok {
+						return fmt.Errorf("verif: external collision group %s is %T", y.slabID, s)
+					}
+					np := append(append([]SlabID{}, path...), y.slabID)
+					if err := elems(ds.elements, np, slab, p, 2, depth+1); err != nil {
+						return err
+					}
+				default:
+					return fmt.Errorf("verif: unexpected element type %T", el)
+				}
+			}
+			return nil
+		case *singleElements:
+			for _, el := range x.elems {
+				entries = append(entries, VerifMapIterEntry{Key: el.key, Value: el.value, Path: path,
+					Slab: slab, Pos: pos, Group: group, Depth: depth, List: true})
+			}
+			return nil
+		default:
+			return fmt.Errorf("verif: unexpected elements type %T", e)
+		}
+	}
+	var walk func(s MapSlab, path []SlabID, level int) error
+	walk = func(s MapSlab, path []SlabID, level int) error {
+		if level > 64 {
+			return fmt.Errorf("verif: map slab tree deeper than 64")
+		}
+		if level+1 > height {
+			height = level + 1
+		}
+		switch x := s.(type) {
+		case *MapDataSlab:
+			dataSlabs = append(dataSlabs, x.header.slabID)
+			return elems(x.elements, path, len(dataSlabs)-1, 0, 0, 0)
+		case *MapMetaDataSlab:
+			for _, h := range x.childrenHeaders {
+				child, err := getMapSlab(m.Storage, h.slabID)
+				if err != nil {
+					return err
+				}
+				np := append(append([]SlabID{}, path...), h.slabID)
+				if err := walk(child, np, level+1); err != nil {
+					return err
+				}
+			}
+			return nil
+		default:
+			return fmt.Errorf("verif: unexpected map slab type %T", s)
+		}
+	}
+	err = walk(m.root, nil, 0)
+	return entries, height, dataSlabs, err
+}
